@@ -74,6 +74,8 @@ def run_models(pid, tier, registry):
         out.append(s)
         if r['violated'] or not r['completed']:
             raise MachineryError(f"model {m['name']} ({cfg}) did not pass: violated={r['violated']} rc={r['rc']}\n{r.get('tail', '')[-1500:]}")
+        if r['distinct'] < m.get('min_states', 1):
+            raise MachineryError(f"vacuity: model {m['name']} explored only {r['distinct']} states")
         for a in m.get('must_cover', []):
             if r['actions'].get(a, (0, 0))[1] == 0:
                 raise MachineryError(f"vacuity: action {a} of model {m['name']} was never taken")
